@@ -293,7 +293,20 @@ func (r *Runner) Submit1(txs []types.Transaction, metas []Meta) (known bool, err
 				rc.Res = Res{Kind: "panic", Text: fmt.Sprint(p)}
 			}
 		}()
+		before, _ := r.Pool()
+		was := map[types.TransactionID]bool{}
+		for _, t := range before {
+			was[t.ID()] = true
+		}
 		known, err = r.CM.AddPoolTransactions(txs)
+		if err == nil && !known {
+			// the pool now holds these copies (an id does not cover the signatures)
+			for i, t := range txs {
+				if !was[t.ID()] {
+					r.Meta[t.ID()] = metas[i]
+				}
+			}
+		}
 		rc.Res = Res{Kind: "verdict", Verdict: verdictOf(known, err)}
 		if err != nil {
 			rc.Res.Text = err.Error()
@@ -319,7 +332,19 @@ func (r *Runner) Submit2(basis types.ChainIndex, txs []types.V2Transaction, meta
 				rc.Res = Res{Kind: "panic", Text: fmt.Sprint(p)}
 			}
 		}()
+		_, before := r.Pool()
+		was := map[types.TransactionID]bool{}
+		for _, t := range before {
+			was[t.ID()] = true
+		}
 		known, err = r.CM.AddV2PoolTransactions(basis, txs)
+		if err == nil && !known {
+			for i, t := range txs {
+				if !was[t.ID()] {
+					r.Meta[t.ID()] = metas[i]
+				}
+			}
+		}
 		rc.Res = Res{Kind: "verdict", Verdict: verdictOf(known, err)}
 		if err != nil {
 			rc.Res.Text = err.Error()
